@@ -11,6 +11,7 @@ use crate::error::{SnmpError, SnmpResult};
 use pyo3::types::PyString;
 use pyo3::{Bound, IntoPyObject, PyAny, Python};
 use std::borrow::Cow;
+use std::cmp::Ordering;
 use std::fmt::Write;
 
 // Object identifier type
@@ -85,6 +86,36 @@ impl TryFrom<&SnmpOid<'_>> for String {
 }
 
 impl SnmpOid<'_> {
+    /// Compare with other oid by sub-identifiers,
+    /// i.e. in the lexicographic order of MIB
+    pub fn arc_cmp(&self, other: &SnmpOid) -> Ordering {
+        let (a, b) = (&self.0, &other.0);
+        let (mut i, mut j) = (0, 0);
+        while i < a.len() && j < b.len() {
+            // Read next sub-identifiers
+            let mut x = 0u64;
+            while i < a.len() {
+                x = (x << 7) | ((a[i] & 0x7f) as u64);
+                i += 1;
+                if a[i - 1] & 0x80 == 0 {
+                    break;
+                }
+            }
+            let mut y = 0u64;
+            while j < b.len() {
+                y = (y << 7) | ((b[j] & 0x7f) as u64);
+                j += 1;
+                if b[j - 1] & 0x80 == 0 {
+                    break;
+                }
+            }
+            if x != y {
+                return x.cmp(&y);
+            }
+        }
+        // Common part is equal, shorter is less
+        (a.len() - i).cmp(&(b.len() - j))
+    }
     // Check oid is contained within
     #[inline]
     pub fn starts_with(&self, oid: &SnmpOid) -> bool {
